@@ -667,14 +667,27 @@ def constructor(ctx, leafmap, split):
     if split_info and split is not None:
         for name, call, bst, pc in children:
             low = split_info["pos"][name] == split["low_index"]
-            bbs = [st for st in au.stmts(loop.body) if isinstance(st, ast.Assign) and len(st.targets) == 1
-                   and isinstance(st.targets[0], ast.Attribute) and st.targets[0].attr == "bb"
-                   and isinstance(st.targets[0].value, ast.Name) and st.targets[0].value.id == name]
-            csite = ctx.site(KD, fn, bbs[0] if bbs else bst)
-            if len(bbs) != 1 or not (isinstance(bbs[0].value, ast.Call) and au.call_tail(bbs[0].value) == "AABB"
-                                     and len(bbs[0].value.args) == 2):
-                ctx.fail("C11-P1", csite, f"box of child `{name}` is not assigned once as AABB(lower corner, upper corner)", "")
+            bbs = []        # (stmt, value or None) for every assignment to <child>.bb in the loop
+            for st in au.stmts(loop.body):
+                if not isinstance(st, ast.Assign):
+                    continue
+                for t in st.targets:
+                    if isinstance(t, (ast.Tuple, ast.List)):
+                        paired = isinstance(st.value, (ast.Tuple, ast.List)) and len(st.value.elts) == len(t.elts)
+                        for i, e in enumerate(t.elts):
+                            if isinstance(e, ast.Attribute) and e.attr == "bb" and isinstance(e.value, ast.Name) and e.value.id == name:
+                                bbs.append((st, st.value.elts[i] if paired else None))
+                    elif isinstance(t, ast.Attribute) and t.attr == "bb" and isinstance(t.value, ast.Name) and t.value.id == name:
+                        bbs.append((st, st.value))
+            csite = ctx.site(KD, fn, bbs[0][0] if bbs else bst)
+            if len(bbs) != 1:
+                ctx.fail("C11-P1", csite, f"box of child `{name}` is not assigned exactly once in the split branch",
+                         "queries call self.nodes[child].bb.distance(pt) for every child")
                 continue
+            if not (isinstance(bbs[0][1], ast.Call) and au.call_tail(bbs[0][1]) == "AABB" and len(bbs[0][1].args) == 2):
+                ctx.declare_unsupported(f"C11-P1: box of child `{name}` is built by `{au.src(bbs[0][0])}` (not a literal AABB(lower, upper)): cut not decided")
+                continue
+            bbs = [ast.Assign(targets=[], value=bbs[0][1], lineno=bbs[0][0].lineno, col_offset=bbs[0][0].col_offset)]
             lo, hi = bbs[0].value.args
             side = "low" if low else "high"
             if low:
@@ -944,7 +957,8 @@ def knn(ctx, root_id):
         seeds = set().union(*[au.names(t) for t, _ in guard_tests])
         # an assignment executed under a test inside the search loop also carries the names of that test
         # (`if n_found >= k: bound = ...`); heap effects (push/pop on the candidate heap) carry nothing
-        for name in list(deps):
+        # - only for the operands of the skip test themselves, so that `n_found -= 1` under `while n_found > k` does not count
+        for name in sorted(seeds):
             for s_, v_, i_ in U.bindings_of(fn, name, within=loop):
                 for t_, _p in au.guards(s_, stop=loop):
                     if t_ is not lif.test:
